@@ -659,6 +659,13 @@ func propC09(c C09Case) error {
 			npaths++
 		}
 	}
+	if ev.File == nil && len(ev.Paths) > 0 && len(ev.Warnings) == 0 {
+		switch ev.Summary.Object.Type {
+		case "file", "filesystem", "directory", "character-device", "block-device", "named-pipe", "symlink", "socket-file":
+			// the normalisation of this event names a file object and there are PATH records: one of them is selected
+			return fmt.Errorf("%s\n  the object of the event is a %s and it has %d PATH records, but there is no file summary and no warning", c.Describe(), ev.Summary.Object.Type, len(ev.Paths))
+		}
+	}
 	if ev.File != nil {
 		var p map[string]string
 		for _, s := range snaps {
